@@ -12,8 +12,8 @@ import time
 
 from common import Inconclusive, add_violations_from_bad, finish, log
 
-KINDS = ["honest", "otherHash", "replay", "garbage", "offcurve", "badRand", "emptyRand", "nonMember"]
-PARTY_TYPES = ["cast", "verify", "own", "wrongBlock", "timeout"]
+KINDS = ["honest", "otherHash", "replay", "garbage", "offcurve", "badRand", "emptyRand", "swapped", "shiftRandom", "shiftSmall", "nonMember"]
+PARTY_TYPES = ["cast", "verify", "own", "wrongBlock", "forged", "timeout"]
 MAX_JVMS = 3
 
 
@@ -78,6 +78,7 @@ CONSTANTS
   MaxDup = 1
   MaxLen = %d
   MaxTimeouts = 1
+  MaxForged = 2
 INVARIANTS GenInv Dump
 CHECK_DEADLOCK FALSE
 """
@@ -104,13 +105,30 @@ def has_timeout(h):
     return any(m["type"] == "timeout" for m in h["h"])
 
 
-def choose_party(rnd, short, deep, n_short, n_deep, n_two, n_timeout):
+def forged_first(h):
+    """A forgery under a member's id is buffered before that member's real share, before the proposal,
+    and the proposal and enough valid shares follow (model: the block finalises)."""
+    seq = h["h"]
+    for i, m in enumerate(seq):
+        if m["type"] != "forged":
+            continue
+        for j in range(i + 1, len(seq)):
+            v = seq[j]
+            if v["type"] == "verify" and v["filed"] == m["filed"] and v["sender"] == m["sender"]:
+                if any(c["type"] == "cast" and c["filed"] == m["filed"] for c in seq[j + 1:]) and \
+                        not any(c["type"] == "cast" and c["filed"] == m["filed"] for c in seq[:j]):
+                    return h["nadd"] >= 1
+    return False
+
+
+def choose_party(rnd, short, deep, n_short, n_deep, n_two, n_timeout, n_forged):
     """Stratified seeded sample: short exhaustive sequences, deep simulated ones, sequences in which
     the model finalises two blocks, and a bounded number with a time-out (10 s of wall time each)."""
     rnd.shuffle(short)
     rnd.shuffle(deep)
     out = [h for h in short if not has_timeout(h)][:n_short]
     deep_nt = [h for h in deep if not has_timeout(h)]
+    out += [h for h in short + deep_nt if not has_timeout(h) and forged_first(h)][:n_forged]
     out += [h for h in deep_nt if h["nadd"] >= 2][:n_two]
     out += [h for h in deep_nt if h["nadd"] < 2][:n_deep]
     tos = [h for h in short if has_timeout(h)][:n_timeout // 2] + [h for h in deep if has_timeout(h)][:n_timeout - n_timeout // 2]
@@ -150,11 +168,11 @@ def run(ctx):
     ascoded = {inv: bool(r["error"]) for inv, r in zip(("OnlyValidShares", "ThresholdImpliesValidGroupSig", "OneFaultTolerated"), res[6:])}
     # 2. TLC-generated message sequences (C15) and handler-call sequences (extension)
     rnd.shuffle(hists)
-    chosen = hists[:1600 if quick else len(hists)]
+    chosen = hists[:1600 if quick else 60000]
     if quick:
-        pchosen, ptimeouts = choose_party(rnd, pshort, pdeep, 150, 60, 12, 8)
+        pchosen, ptimeouts = choose_party(rnd, pshort, pdeep, 150, 60, 12, 8, 24)
     else:
-        pchosen, ptimeouts = choose_party(rnd, pshort, pdeep, 5000, 1500, 200, 96)
+        pchosen, ptimeouts = choose_party(rnd, pshort, pdeep, 5000, 1500, 200, 96, 600)
     drv = ctx.build("c15")
     pdrv = ctx.build("c15p")
     shards = 8 if quick else 16
@@ -177,9 +195,15 @@ def run(ctx):
     outs = ctx.run_parallel(argvs, timeout=1500)
     counts = summary(outs[:shards], "c15:")
     pcounts = summary(outs[shards:], "c15p:")
+    for o in outs[shards:]:
+        for line in o.splitlines():
+            if line.startswith("c15p-log:"):
+                log(line)
     for need in KINDS + ["wire", "recovered", "messages"]:
         if counts.get(need, 0) == 0:
             raise Inconclusive("vacuity: no %s occurred in the driven sequences" % need)
+    if not any(forged_first(h) for h in pchosen):
+        raise Inconclusive("vacuity (extension): no sequence with a forgery buffered before the honest share and the proposal")
     for need in PARTY_TYPES + ["finalised", "twoBlocks"]:
         if pcounts.get(need, 0) == 0:
             raise Inconclusive("vacuity (extension): no %s occurred in the driven party sequences" % need)
@@ -243,6 +267,9 @@ def run(ctx):
             "calls_by_type": {k: pcounts[k] for k in PARTY_TYPES},
             "sequences_finalising": pcounts["finalised"],
             "sequences_finalising_two_blocks": pcounts["twoBlocks"],
+            "sequences_slower_than_the_party_timeout_not_judged": pcounts.get("slow", 0),
+            "party_errors_logged_by_the_processor": pcounts.get("partyErrors", 0),
+            "sequences_forgery_buffered_before_honest_share": sum(1 for h in pchosen if forged_first(h)),
             "events_validated": ptotal,
             "action_coverage": pref["coverage"],
             "samples": psamples[:5],
